@@ -127,12 +127,19 @@ def build_set(g, r, stratum):
         shape = (len(tv),)
         return shape, tv, ["threshold"] * len(tv)
     for _ in range(n):
-        if stratum in ("mixed", "parallel"):
+        if stratum in ("mixed", "parallel", "equivalent"):
             kind = r.choice(["general", "axis", "mirror"])
         else:
             kind = stratum
         rows.append(gen_vector(g, r, kind))
         labs.append(kind)
+    if stratum == "equivalent" and n >= 2:
+        # symmetry-equivalent copies, computed by the implementation's own rotation
+        for _ in range(max(1, n // 2)):
+            i, j = r.sample(range(n), 2)
+            k = r.randrange(g.size)
+            rows[j] = (g[k] * Vector3d(rows[i])).data.reshape(3).tolist()
+            labs[j] = labs[i]
     if stratum == "parallel" or (stratum == "mixed" and n >= 2 and r.random() < 0.5):
         # parallel pairs / exact duplicates / antiparallel
         i, j = r.sample(range(n), 2) if n >= 2 else (0, 0)
@@ -320,20 +327,26 @@ def check_unique(g, mats, m, shape, rows, stratum, lat):
     ud = u.data.reshape(-1, 3)
     fl = m.flatten().data.reshape(-1, 3)
     amb = ambiguous(mats, fl)
-    if not amb:
-        cases.append({"k": "uniq", "group": gname, "ops": ops_json(g), "flat": fl.tolist(), "out": ud.tolist()})
+    # the steps of Miller.unique, for the correspondence: base-class unique,
+    # outer product of the kept (rounded) vectors with the group
+    vb = Vector3d(m.data).unique()
+    nb = vb.size
+    orb = g.outer(vb).flatten().reshape(nb, g.size).data if nb else np.zeros((0, g.size, 3))
+    cases.append({"k": "uniq", "group": gname, "ops": ops_json(g), "flat": fl.tolist(),
+                  "base": vb.data.reshape(-1, 3).tolist(), "orbits": np.asarray(orb).reshape(nb, g.size, 3).tolist(),
+                  "out": ud.tolist()})
     tag = "threshold" if amb else "regular"
-    if tag == "regular":
-        for a in range(len(ud)):
-            for b in range(a + 1, len(ud)):
-                if equivalent(mats, ud[a], ud[b]):
-                    fail("unique:orbits:two-from-one-orbit",
-                         f"unique(use_symmetry=True) returns {ud[a].tolist()} and {ud[b].tolist()} which are "
-                         f"equivalent under {gname}", rep)
-                    break
-            else:
-                continue
-            break
+    exact_ops = "exact-ops" if g.system not in ("trigonal", "hexagonal") else "inexact-ops"
+    for a in range(len(ud)):
+        for b in range(a + 1, len(ud)):
+            if equivalent(mats, ud[a], ud[b]):
+                fail(f"unique:orbits:two-from-one-orbit:{exact_ops}",
+                     f"unique(use_symmetry=True) returns {ud[a].tolist()} and {ud[b].tolist()} which are "
+                     f"equivalent under {gname}", rep)
+                break
+        else:
+            continue
+        break
     for v in fl:
         if np.all(np.abs(v) <= 1e-8):
             continue
@@ -447,10 +460,21 @@ def fixed():
              {"group": "m-3m", "self": [[1, 0, 0], [1, 1, 0]], "other": [[5, 0, 1], [1, 1, 1]]})
 
 
+    # (d) unique(use_symmetry=True) keeps two equivalent vectors (inexact operations)
+    g3 = [x for x in GROUPS if x.name == "3"][0]
+    ph3 = Phase(point_group=g3)
+    v = [0.04740454635871802, -0.4941590699323547, 2.3180960409799796]
+    w = (g3[2] * Vector3d(v)).data.reshape(3).tolist()
+    m3 = Miller(xyz=[v, w], phase=ph3)
+    witness["unique_equiv_pair"] = int(m3.unique(use_symmetry=True).size)
+    st("fixed/unique-equivalent")
+    check_unique(g3, group_mats(g3), m3, (2,), [v, w], "equivalent", ph3.structure.lattice)
+
+
 fixed()
 
 # ------------------------------------------------------------------ main loop
-STRATA = ["general", "axis", "mirror", "mixed", "parallel", "threshold", "lattice"]
+STRATA = ["general", "axis", "mirror", "mixed", "parallel", "threshold", "lattice", "equivalent"]
 if not FIXED_ONLY:
     per_group = max(1, N // len(GROUPS))
     for g in GROUPS:
